@@ -262,6 +262,13 @@ func propC06(c *ctx) error {
 		{`<p :define="f"><q :text="${x}">o</q></p><r :with="x := ${'call-site'}" :insert="f">o</r><r :insert="f">o</r>`, `<r><q>call-site</q></r><r><q>d</q></r>`},
 		{`<a :with="x := ${'1'}"><b :with="y := ${x + '2'}"><c :with="x := ${y + '3'}"><d :with="y := ${x + '4'}" :text="${x}|${y}">o</d><e :text="${x}|${y}">o</e></c><f :text="${x}|${y}">o</f></b></a>`, `<a><b><c><d>123|1234</d><e>123|12</e></c><f>1|12</f></b></a>`},
 	}
+	// a void element (in any letter case) has no descendants: a binding made on it is never visible to what follows it
+	for _, v := range []string{"input", "INPUT", "Input", "br", "BR", "img", "IMG", "hr", "Hr", "meta", "META", "wbr", "WBR", "area", "Col", "EMBED", "Link", "source", "TRACK", "base"} {
+		tcs = append(tcs,
+			tc{`<div><` + v + ` :with="x := ${'inner'}" :value="${x}"><p :text="${x}">o</p></div><p :text="${x}">o</p>`, `<div><` + v + ` value="inner"><p>d</p></div><p>d</p>`},
+			tc{`<div><` + v + ` :range="_, x : ns" :title="${x}"><p :text="${x}">o</p></div>`, `<div><` + v + ` title="&lt;nil&gt;"><` + v + ` title="1"><p>d</p></div>`},
+			tc{`<` + v + ` :with="g := ${'local'}" :alt="${g}"><i :text="${g}">o</i>`, `<` + v + ` alt="local"><i>G</i>`})
+	}
 	nFixed := len(tcs)
 	var recData []val
 	// a binding made by `with` inside a fragment that re-enters ITSELF: after the inner instance has evaluated the same
